@@ -15,6 +15,7 @@ for all inputs (the former counter-witness is proved rejected).
 -/
 import Cascette.Proofs.ParseGuards
 import Cascette.Proofs.ParseFronts
+import Cascette.Proofs.ParseBodies
 import Cascette.Proofs.Integrity
 namespace Cascette.Props.C02
 open Cascette Cascette.Model.ParseGuards
@@ -140,6 +141,69 @@ theorem size_alloc_bounded (szTag szEntry : Nat) (h1 : szTag ≤ 64) (h2 : szEnt
 theorem pindex_no_panic_alloc_bounded (b : Bytes) :
     (PIndex.front b).verdict ≠ .panic ∧ ∀ a ∈ (PIndex.front b).allocs, a ≤ b.length :=
   Proofs.ParseGuards.PIndex.front_spec b
+
+/-! ### Patch index, COMPLETE (header, block walk, block type 2, block type 8, entry parser) -/
+
+/-- `parse_patch_index` (= `<PatchIndex as CascFormat>::parse`), every input: no slice of the block
+walk (`&data[offset..offset+size]`), of a block parser (`&data[pos..]`) or of the entry parser
+(`data[pos..pos+n]`, `key[..ks]` of a 16-byte array) is out of range — whichever block types the
+descriptors name and in whichever order (block 8 runs only while no block 2 was seen) — and every
+`Vec::with_capacity(entry_count)` request is at most `szEntry · len` bytes. -/
+theorem pindex_full_no_panic_alloc_bounded (szEntry : Nat) (b : Bytes) :
+    (Cascette.Model.ParseBodies.PIdx.parse szEntry b).1 ≠ .panic ∧ ∀ a ∈ (Cascette.Model.ParseBodies.PIdx.parse szEntry b).2, a ≤ szEntry * b.length :=
+  Cascette.Proofs.ParseBodies.PIdx.parse_ok szEntry b
+
+/-- the two public block parsers called DIRECTLY on any bytes (`parse_block2`, `parse_block8`) and the
+public entry parser with any key size (`PatchIndexEntry::parse`, first byte = key size): no panic. -/
+theorem pindex_subparsers_no_panic (szEntry : Nat) (d : Bytes) :
+    (Cascette.Model.ParseBodies.PIdx.block2 szEntry d).1 ≠ .panic ∧ (Cascette.Model.ParseBodies.PIdx.block8 szEntry d).1 ≠ .panic ∧
+      Cascette.Model.ParseBodies.PIdx.entryBytes d ≠ .panic := by
+  refine ⟨Cascette.Proofs.ParseBodies.PIdx.block2_no_panic szEntry d,
+    Cascette.Proofs.ParseBodies.PIdx.block8_no_panic szEntry d, ?_⟩
+  unfold Cascette.Model.ParseBodies.PIdx.entryBytes
+  split
+  · simp
+  · exact Cascette.Proofs.ParseBodies.PIdx.entry_no_panic _ _
+
+/-- the key-size clause of the entry parser's guard is what excludes the panic: the same code with
+only the length test panics for EVERY key size above 16 once one entry's worth of bytes is there
+(whoever calls it: block 2, block 8, or a user of the public function). -/
+theorem pindex_entry_keysize_clause_needed (ks len : Nat) (h16 : 16 < ks) (hl : Cascette.Model.ParseBodies.PIdx.esize ks ≤ len) :
+    Cascette.Model.ParseBodies.PIdx.entryG false ks len = .panic ∧ Cascette.Model.ParseBodies.PIdx.entryG true ks len = .err := by
+  refine ⟨Cascette.Proofs.ParseBodies.PIdx.entry_unguarded_panics ks len h16 hl, ?_⟩
+  rw [Cascette.Proofs.ParseBodies.PIdx.entry_eq]; simp [h16]
+
+/-- a 104-byte patch index whose only block has type 8 (version 3, one entry, key size `ks`). -/
+def pindexBlock8File (ks : Nat) : Bytes :=
+  [0x1a, 0, 0, 0, 1, 0, 0, 0, 0x68, 0, 0, 0, 0, 0, 1, 0, 0, 0, 8, 0, 0, 0, 0x4e, 0, 0, 0,
+   3, BitVec.ofNat 8 ks, 0x0e, 0, 1, 0, 0, 0, 0x41, 0, 0, 0, 0, 0] ++ List.replicate 64 0xab
+
+/-- TEST / COUNTER-WITNESS (kernel evaluation): through a whole file whose block 8 is the one that
+runs, key size 17 is an error as written and a panic without the key-size clause; key size 16
+parses (the hypotheses above are met by a non-trivial input). -/
+theorem pindex_block8_keysize_witness :
+    (Cascette.Model.ParseBodies.PIdx.parseG true 64 (pindexBlock8File 17)).1 = .err ∧
+    (Cascette.Model.ParseBodies.PIdx.parseG false 64 (pindexBlock8File 17)).1 = .panic ∧
+    (Cascette.Model.ParseBodies.PIdx.parseG true 64 (pindexBlock8File 16)) = (.ok, [64]) := by
+  decide +kernel
+
+/-! ### ZBSDIFF apply: the old-file position under adversarial control entries -/
+
+/-- for every control list, every old-file position the entry loop computes (behind each diff window,
+behind each seek) fits `usize` — the diff advance saturates like the seeks (fix 7c888f9), so no
+`+=` can overflow whatever the entries say; reads at positions beyond the old file are zeros
+(`Cascette.Model.ParseBodies.Zbs.applyFrom` is total). -/
+theorem zbs_positions_fit_usize (cs : List Cascette.Spec.Bspatch.Ctl) :
+    ∀ x ∈ Cascette.Model.ParseBodies.Zbs.positions true cs 0, x ≤ Cascette.Spec.Bspatch.usizeMax :=
+  Cascette.Proofs.ParseBodies.Zbs.positions_le cs 0
+
+/-- COUNTER-WITNESS for the advance as written before the fix (`old_pos += n`): two forward seeks of
+2^63 − 1 and one diff byte leave the position at `usize::MAX`; the next diff byte overflows. -/
+theorem zbs_unsaturated_advance_overflows :
+    ∃ x ∈ Cascette.Model.ParseBodies.Zbs.positions false [⟨0, 0, 2 ^ 63 - 1⟩, ⟨1, 0, 2 ^ 63 - 1⟩, ⟨2, 0, 0⟩] 0,
+      Cascette.Spec.Bspatch.usizeMax < x := by
+  decide
+
 
 theorem zbsdiff_no_panic (b : Bytes) : (Zbs.front b).verdict ≠ .panic :=
   Proofs.ParseGuards.Zbs.front_no_panic b
